@@ -131,14 +131,16 @@ Qed.
 (* the HTTP transport never turns a failure into an accept *)
 Lemma http_fail_closed zero tr status b :
   tr = TFail \/ status <> 200 \/ b = BReadFail \/ b = BGarbage \/
-  (exists rs un cf, b = BParsed true rs un cf) ->
+  (exists rs un cf, b = BParsed true rs un cf) \/
+  (exists rs, b = BParsed false rs false CFNull) ->
   is_accept (http_outcome zero tr status b) = false.
 Proof.
   unfold http_outcome, http_handle. intros H.
   destruct tr; [|reflexivity].
   destruct (status =? 200) eqn:Es; cbn [negb]; [|reflexivity].
   apply Z.eqb_eq in Es.
-  destruct H as [H|[H|[H|[H|[rs [un [cf H]]]]]]]; try congruence; try (subst b; reflexivity).
+  destruct H as [H|[H|[H|[H|[[rs [un [cf H]]]|[rs H]]]]]]; try congruence; try (subst b; reflexivity).
+  subst b. destruct cf, un; reflexivity.
 Qed.
 
 Lemma http_accept_only_when zero tr status b :
@@ -148,9 +150,26 @@ Proof.
   unfold http_outcome, http_handle. destruct tr; [|discriminate].
   destruct (status =? 200) eqn:Es; cbn [negb]; [|discriminate]. apply Z.eqb_eq in Es.
   destruct b as [| |rj rs un cf]; try discriminate.
-  cbn [classify h_reject h_unchange h_content h_reason]. destruct rj; [discriminate|].
+  destruct rj; [destruct cf, un; discriminate|].
   intros H. repeat split; try assumption. exists rs, un, cf. split; [reflexivity|].
   intros ->. destruct cf; try discriminate.
+Qed.
+
+(* the HTTP plugin never hands a nil content to the manager: no chain of HTTP plugins can panic it *)
+Lemma http_never_nil zero tr status b : http_outcome zero tr status b <> AcceptNilContent.
+Proof.
+  unfold http_outcome, http_handle. destruct tr; [|discriminate].
+  destruct (status =? 200); cbn [negb]; [|discriminate].
+  destruct b as [| |rj rs un cf]; try discriminate.
+  destruct cf, rj, un; discriminate.
+Qed.
+
+Lemma chain_no_crash os : forall c,
+  (forall o, In o os -> o <> AcceptNilContent) -> fst (run_chain os c) <> RCrash.
+Proof.
+  intros c H. rewrite run_chain_result. destruct (first_refusal os) as [o|] eqn:E; [|discriminate].
+  apply first_refusal_some in E. destruct E as [_ Hin]. specialize (H o Hin).
+  destruct o; cbn; congruence.
 Qed.
 
 (** * 2. Reflective checker over the translator's tables *)
@@ -768,7 +787,7 @@ Qed.
    CloseProxy: one unconditional notification after the delete; worker: one unconditional
    notification per entry of ctl.proxies *)
 Definition nsite_ok (s : nsite) : bool :=
-  (n_ifs s =? 0) && String.eqb (n_name s) "pxy.GetName()" &&
+  (n_ifs s =? 0) && (n_jumps s =? 0) && String.eqb (n_name s) "pxy.GetName()" &&
   ((String.eqb (n_func s) "worker" && String.eqb (n_range s) "ctl.proxies") ||
    (String.eqb (n_func s) "CloseProxy" && String.eqb (n_range s) "")).
 
